@@ -633,7 +633,7 @@ def shard(arg):
     if kind == "seq":
         cfg = configs()[idx]
         n = maxlen - 1 if cfg["big"] else maxlen
-        with core.alarm(600):
+        with core.alarm(3000):
             run_config(p, cfg, filt.seqs(cfg["alpha"], n))
         p.count("sequences", filt.count_seqs(len(cfg["alpha"]), n))
     else:
@@ -641,7 +641,7 @@ def shard(arg):
         cfg = {"name": "dictsort", "args": args, "kwargs": kwargs, "kind": "same", "alpha": (), "forms": ("same",),
                "big": False}
         ds = list(dict_cases(maxlen >= 6))
-        with core.alarm(600):
+        with core.alarm(3000):
             run_config(p, cfg, ds, sig_maxlen=2)
         p.count("dicts", len(ds))
     return p
